@@ -48,6 +48,9 @@ CLAIMED = {
     "C24": ("Coq proof (enumerated iteration space = box, counts, bounds, data space = intersection of projected spaces, reported size = number of projected points whenever a size is reported, stride = step, halo = extreme of the slice) + differential correspondence against ISL-backed code",
             "C24_iteration_space, C24_ops, C24_bounds, C24_data_space, C24_size_or_error, C24_stride, C24_halo for all boxes and affine accesses; the real n_computes / get_rank_variable_bounds / get_tensor_size (value or error) / get_stride_and_halo_of_einsum are compared with the vm_compute-evaluated model and a brute-force enumeration on random workloads (strided, diagonal, convolution-like and constant-offset accesses, intermediate and multiply-read tensors).",
             "Coq kernel; ISL not modelled (tied by correspondence); non-negative coefficients; halo read as the docstring's 'initial delta' (constant term included)"),
+    "C28": ("Coq proof (regrouping a key-indexed breakdown by any subset of key positions preserves the total and gives each key the sum of its members; per-Einsum latency is the maximum over components, latency() the sum of these maxima) + differential correspondence on real and synthetic result tables",
+            "C28_breakdown_total / C28_breakdown_value (all 16 energy and 8 action flag combinations are instances), C28_energy_scalar, C28_latency; the real Mappings.energy/actions/latency/resource_usage are run for every flag combination (twice, mutation check) on real mapper results and on synthetic tables and compared with the vm_compute-evaluated token-level model (column-name surgery included) and with the Total columns. Partial: that the collected dictionary covers every per-Einsum energy column (the <SEP> key surgery) is tied by the correspondence, not proved.",
+            "Coq kernel; integer-valued tables; pandas arithmetic correspondence-only; Total columns are C04's business; component names never equal tensor names (shared namespace in set expressions)"),
 }
 
 PENDING_REASON = "check not built yet in this round (planned, see DESIGN.md section 6); not claimed until its proof and correspondence exist"
